@@ -129,11 +129,16 @@ fn from_js_str_radix(src: JsStr<'_>, radix: u8) -> Option<f64> {
         }
         result as f64
     } else {
-        let mut result = 0f64;
+        // Accumulating in `f64` (`result * radix + digit`) rounds after every digit and drifts away
+        // from the mathematical integer as soon as it exceeds 2^53; the specification wants the
+        // Number value for the exact integer (for radix 10 up to 20 significant digits, and for
+        // the power-of-two radices).  Build the integer exactly and round once.
+        let mut result = num_bigint::BigUint::from(0u8);
         for c in src {
-            result = result * f64::from(radix) + f64::from(to_digit(c, radix)?);
+            result = result * u32::from(radix) + u32::from(to_digit(c, radix)?);
         }
-        result
+        // `to_f64` rounds to nearest, ties to even, and saturates to infinity.
+        num_traits::ToPrimitive::to_f64(&result).unwrap_or(f64::INFINITY)
     };
 
     Some(result)
